@@ -128,7 +128,7 @@ func genHashCase(t *rapid.T) hashCase {
 }
 
 func TestC07_walk(t *testing.T) {
-	runRapid(t, "C07/walk", 40000, genHashCase, func(c hashCase) error {
+	runRapid(t, "C07/walk", 120000, genHashCase, func(c hashCase) error {
 		stats.Sample("C07/walk", c)
 		return checkC07Walk(c)
 	})
@@ -237,7 +237,7 @@ func genTrans(t *rapid.T) transCase {
 }
 
 func TestC07_transposition(t *testing.T) {
-	runRapid(t, "C07/transposition", 30000, genTrans, func(c transCase) error {
+	runRapid(t, "C07/transposition", 90000, genTrans, func(c transCase) error {
 		if c.A == nil {
 			stats.Case("C07/transposition", 0, false, "no-transposition-drawn")
 			return nil
@@ -361,7 +361,7 @@ func genSep(t *rapid.T) sepCase {
 }
 
 func TestC07_separation(t *testing.T) {
-	runRapid(t, "C07/separation", 40000, genSep, func(c sepCase) error {
+	runRapid(t, "C07/separation", 120000, genSep, func(c sepCase) error {
 		stats.Sample("C07/separation", c)
 		return checkC07Sep(c)
 	})
